@@ -316,7 +316,9 @@ func ruleP01Guards(p *Prog, r *Report) {
 	if !r.anchorFn(rule, parse, "parser.parse") {
 		return
 	}
-	// left-over text in the headline: RemainingLength() > 0 (threshold normalised) -> error appended
+	// left-over text in the headline: a test of "characters remaining" = len(Chars) - PointerPosition
+	// (spelled through any of the Parseable accessors, on either side of the comparison) against a
+	// constant; normalised to "remaining >= t", the error must be raised for t == 1
 	n := 0
 	for _, f := range fam {
 		for _, b := range f.Blocks {
@@ -324,22 +326,25 @@ func ruleP01Guards(p *Prog, r *Report) {
 			if !ok {
 				continue
 			}
-			bo, ok := iff.Cond.(*ssa.BinOp)
-			if !ok {
+			bo, ok := normCmp(iff.Cond)
+			if !ok || !isIntType(bo.X.Type()) {
 				continue
 			}
-			nm, _, _, _ := methodCall(bo.X)
-			if nm != "RemainingLength" {
-				continue
-			}
-			k, isK := constInt(bo.Y)
-			if !isK {
+			d := polySub(polyX(bo.X), polyX(bo.Y))
+			sgn, isRem := remainingShape(d)
+			if !isRem {
 				continue
 			}
 			n++
-			// normalise to "remaining >= t"
-			t := int64(-1)
-			switch bo.Op {
+			// sgn*remaining + C op 0  <=>  remaining op' k
+			op, k := bo.Op, -d.C
+			if sgn < 0 {
+				k = d.C
+				op = map[token.Token]token.Token{token.LSS: token.GTR, token.GTR: token.LSS, token.LEQ: token.GEQ, token.GEQ: token.LEQ, token.EQL: token.EQL, token.NEQ: token.NEQ}[op]
+			}
+			// normalise to "remaining >= t" on edge errSucc
+			t, errSucc := int64(-1), 0
+			switch op {
 			case token.GTR:
 				t = k + 1
 			case token.GEQ:
@@ -348,10 +353,18 @@ func ruleP01Guards(p *Prog, r *Report) {
 				if k == 0 {
 					t = 1
 				}
+			case token.LEQ:
+				t, errSucc = k+1, 1
+			case token.LSS:
+				t, errSucc = k, 1
+			case token.EQL:
+				if k == 0 {
+					t, errSucc = 1, 1
+				}
 			}
 			r.check(t == 1, rule, fnName(f)+":headline-rest", p.instrPos(iff), "any remaining character in the headline is an error", fmt.Sprintf("left-over headline text is only rejected from %d characters on", t))
-			// the true edge appends an error
-			succ := b.Succs[0]
+			// the "something remains" edge appends an error
+			succ := b.Succs[errSucc]
 			hasNew := false
 			for _, in := range succ.Instrs {
 				if c, ok := in.(*ssa.Call); ok && staticCallee(c) != nil && fnBase(staticCallee(c)) == "New" {
@@ -1222,4 +1235,31 @@ func ruleP16Fold(p *Prog, r *Report) {
 	if !found {
 		r.bad(rule, "fold", p.pos(f.Pos()), "newTime has no 24:00 fold: 24:00 and <24:00 are rejected")
 	}
+}
+
+// remainingShape: d == sgn*(len(x.Chars) - x.PointerPosition) + constant for one Parseable x.
+func remainingShape(d *Poly) (sgn int64, ok bool) {
+	if len(d.Terms) != 2 {
+		return 0, false
+	}
+	var lenKey, posKey string
+	for k := range d.Terms {
+		switch {
+		case strings.HasPrefix(k, "len(field:") && strings.HasSuffix(k, ".Chars)"):
+			lenKey = k
+		case strings.HasPrefix(k, "field:") && strings.HasSuffix(k, ".PointerPosition"):
+			posKey = k
+		}
+	}
+	if lenKey == "" || posKey == "" {
+		return 0, false
+	}
+	if strings.TrimSuffix(strings.TrimPrefix(lenKey, "len(field:"), ".Chars)") != strings.TrimSuffix(strings.TrimPrefix(posKey, "field:"), ".PointerPosition") {
+		return 0, false
+	}
+	a, b := d.Terms[lenKey], d.Terms[posKey]
+	if a != -b || (a != 1 && a != -1) {
+		return 0, false
+	}
+	return a, true
 }
